@@ -281,23 +281,17 @@ theorem C11_no_wedge_counterexample_oversize :
        .drained [] (.tooLarge 201)] := by
   decide +kernel
 
-/-- Genuine defect of the glue (confirmed on the real code, class
-    `extract-left-complete-frame`): `Channel::new(_, 64, 512)`, frames of 511 and
-    63 bytes, all 574 bytes already in the socket. `readable()` fills the buffer
-    to the ceiling and drops the READABLE interest; `read_message` returns the
-    first message but does not take the interest back, so the next `readable()`
-    of `extract_messages` is refused, `read_message` says `NothingRead` with an
-    unchanged capacity and `extract_messages` returns `[first]` while the second
-    frame is completely received (1 byte buffered + 62 in the socket). With
-    edge-triggered polling the owner is not called again until the peer sends
-    something else. (`C11_fifo_refinement` still holds: nothing is lost, the
-    message is only late; the fair `drain` delivers it.) -/
-theorem C11_extract_stall_counterexample :
+/-- Regression for the repaired glue stall (class `extract-left-complete-frame`):
+    `Channel::new(_, 64, 512)`, frames of 511 and 63 bytes, all 574 bytes in the
+    socket: one `extract_messages` call now returns both messages and drains
+    the socket (`read_message` takes the READABLE interest back and `readable()`
+    reclaims consumed bytes before giving up). -/
+theorem C11_extract_no_stall_witness :
     let res := run (fun _ => true) (Sys.new 64 512)
       [.write (List.replicate 503 120), .flush [usizeMax], .write (List.replicate 55 121),
        .flush [usizeMax], .deliver 574, .extract]
-    res.2 = [.unit, .count 511, .unit, .count 63, .count 574, .msgs [List.replicate 503 120]] ∧
-    res.1.rq.length = 62 ∧ res.1.r.front.data.length = 1 ∧ res.1.r.front.cap = 64 := by
+    res.2 = [.unit, .count 511, .unit, .count 63, .count 574,
+      .msgs [List.replicate 503 120, List.replicate 55 121]] ∧ res.1.rq.length = 0 := by
   decide +kernel
 
 end Sozu.Channel
